@@ -485,7 +485,7 @@ def main():
         for sub_ in ("Model", "Spec", "Proofs", "Gen", "Properties"):
             for p_ in core.coq_sources(sub_):
                 if os.path.exists(p_ + "o"):
-                    mods.append("Termemu." + os.path.basename(p_)[:-2])
+                    mods.append("Termemu.%s.%s" % (sub_, os.path.basename(p_)[:-2]))   # -Q . Termemu: the directory is part of the name
         p_ = core.sh(["coqchk", "-silent", "-o", "-Q", ".", "Termemu"] + sorted(set(mods)), cwd=core.COQ, check=False, timeout=7200)
         out_ = (p_.stdout or b"").decode("utf8", "replace")
         coqchk = {"exit": p_.returncode, "modules": len(set(mods)), "tail": out_[-1500:]}
